@@ -22,6 +22,7 @@ import (
 	"strconv"
 	"strings"
 	"sync"
+	"testing"
 	"time"
 	"unsafe"
 
@@ -385,7 +386,11 @@ type amlSession struct {
 func amlNewSession() *amlSession {
 	tree := NewObjectTree()
 	tree.CreateDefaultScopes(0)
-	return &amlSession{tree: tree, parser: NewParser(ioutil.Discard, tree)}
+	var w io.Writer = ioutil.Discard
+	if os.Getenv("VERIF_AML_DEBUG") != "" {
+		w = os.Stderr
+	}
+	return &amlSession{tree: tree, parser: NewParser(w, tree)}
 }
 
 var amlRowLimit = verifEnvInt("VERIF_AML_ROWS", 160)
@@ -783,3 +788,37 @@ func amlPrintFacts(out io.Writer, ns string) {
 	ps("isArg", pOpIsArg)
 	p("end Firefly.Gen.%s\n", ns)
 }
+
+func c12EncPkgLen(v uint32, width int) []byte {
+	// value v in exactly `width` bytes (1..4); width 1 holds 6 bits
+	switch width {
+	case 1:
+		return []byte{byte(v & 0x3f)}
+	default:
+		out := []byte{byte((width-1)<<6) | byte(v&0xf)}
+		v >>= 4
+		for i := 1; i < width; i++ {
+			out = append(out, byte(v))
+			v >>= 8
+		}
+		return out
+	}
+}
+
+
+func sortStrings(xs []string) {
+	for i := 1; i < len(xs); i++ {
+		for j := i; j > 0 && xs[j] < xs[j-1]; j-- {
+			xs[j], xs[j-1] = xs[j-1], xs[j]
+		}
+	}
+}
+
+// TestVerifAmlChild is the entry point of the re-executed child process (see amlRunChild).
+func TestVerifAmlChild(t *testing.T) {
+	if os.Getenv(amlChildEnv) == "" {
+		t.Skip("child only")
+	}
+	amlChildMain()
+}
+
